@@ -20,7 +20,7 @@ NT_RULE = ('1-8 formation reactions sharing gas reference species, norm factors 
            'branch; distinct = canonical JSON')
 REQUIRED_ORACLES = ['D1', 'D2', 'D3']
 REQUIRED_CLASSES = ['scan:1D', 'scan:2D', 'var:T', 'var:P', 'var:species_kwargs', 'units:yes', 'units:no',
-                    'stable:changes', 'norms:int', 'norms:float', 'span:max_before_min', 'span:max_after_min', 'span:with_ts', 'span:network', 'span:chain', 'span:cycle', 'span:unchained', 'span:unchained:scaled', 'span:unchained:third_decimal', 'span:unchained:twin', 'reactions:duplicate',
+                    'stable:changes', 'norms:int', 'norms:float', 'norms:huge', 'norms:tiny', 'span:max_before_min', 'span:max_after_min', 'span:with_ts', 'span:network', 'span:chain', 'span:cycle', 'span:unchained', 'span:unchained:scaled', 'span:unchained:third_decimal', 'span:unchained:twin', 'span:chain:shared_bep', 'span:cycle:shared_bep', 'reactions:duplicate',
                     'grid:1', 'reactions:1']
 REQUIRED_PROBES = ['PhaseDiagram.get_GoRT_1D', 'PhaseDiagram.get_GoRT_2D', 'Reactions.get_E_span',
                    'Network.get_E_span']
@@ -54,9 +54,14 @@ def _gen_diagram(rng):
         rxns.append({'reactants': [list(x) for x in rxns[0]['reactants']], 'products': [list(x) for x in rxns[0]['products']]})
         norms.append(round(norms[0] * rng.choice([0.5, 2.0, 3.0]), 3))
     # normalisation factors are often integers (atoms or sites per cell)
-    norm_kind = rng.choice(['float', 'float', 'int'])
+    norm_kind = rng.choice(['float', 'float', 'int', 'huge', 'tiny'])
     if norm_kind == 'int':
         norms = [rng.choice([1, 2, 3, 4, 6, 9]) for _ in norms]
+    elif norm_kind == 'huge':
+        # per pm^2 of slab area, per Bohr^3 ...: normalised energies of order 1e-6 and below
+        norms = [float('%.4g' % (v * 10 ** rng.choice([5, 6, 7, 8, 9]))) for v in norms]
+    elif norm_kind == 'tiny':
+        norms = [float('%.4g' % (v * 10 ** rng.choice([-3, -5, -6]))) for v in norms]
     def axis(kind, n):
         if kind == 'T':
             return 'T', sorted(round(rng.uniform(300, 3000), 2) for _ in range(n))
@@ -121,7 +126,21 @@ def _gen_span(rng):
                     new.append([nm + '~2', v])
                 consumed.append(new)
         shape = 'unchained:' + variant
+    bep = None
+    if shape in ('chain', 'cycle') and n >= 2 and rng.random() < 0.25:
+        # ONE Bronsted-Evans-Polanyi object is the transition state of several steps (a family of
+        # elementary steps correlated by one relation): its energy depends on the step it is asked for
+        bep = {'slope': round(rng.uniform(0, 1), 3), 'intercept': round(rng.uniform(0, 40), 3),
+               'descriptor': rng.choice(['delta_H', 'delta_H', 'rev_delta_H'])}
+        k_ = rng.sample(range(n), rng.randint(2, n))
+        for i in range(n):
+            if i in k_:
+                for nm, _ in (ts[i] or []):
+                    species.pop(nm, None)
+                ts[i] = [['@bep', 1]]
+        shape = shape + ':shared_bep'
     return {'kind': 'span', 'species': species, 'states': states, 'ts': ts, 'shape': shape, 'consumed': consumed,
+            'bep': bep,
             'cond': {'T': round(rng.uniform(300, 2500), 2), 'P': S.logu(rng, 1e-2, 1e1, 4)},
             # the same objects are evaluated again at other conditions (stale caches, state kept between calls)
             'cond2': {'T': round(rng.uniform(300, 2500), 2), 'P': S.logu(rng, 1e-2, 1e1, 4)},
@@ -151,6 +170,9 @@ def install_probes(pr, ctx):
 def _build_rxns(spec, rx_specs):
     from pmutt.reaction import Reaction
     objs = {n: S.build(s) for n, s in spec['species'].items()}
+    if spec.get('bep'):
+        from pmutt.reaction.bep import BEP
+        objs['@bep'] = BEP(name='bep_shared', **spec['bep'])
     out = []
     for r in rx_specs:
         kw = dict(reactants=[objs[n] for n, _ in r['reactants']], reactants_stoich=[v for _, v in r['reactants']],
@@ -205,7 +227,7 @@ def _diagram(spec, ctx):
         if not ctx.check('D1', G.shape == (len(rxns), len(xv)), dict(mech, what='shape'), shape=list(G.shape)):
             return
         want = np.array([[own(i, {xn: x}) for x in xv] for i in range(len(rxns))])
-        ctx.close('D1', G, want, 1e-12, dict(mech, what='values'))
+        ctx.close('D1', G, want, 1e-12, dict(mech, what='values'), scale=_rel(want))
         _stable(ctx, mech, np.asarray(stable), want, (len(xv),))
         # same object, same scan, other fixed conditions: nothing may be remembered from the first call
         if 'T' in fixed:
@@ -217,7 +239,7 @@ def _diagram(spec, ctx):
                 fixed.clear(); fixed.update(fixed2)
                 want2 = np.array([[own(i, {xn: x}) for x in xv] for i in range(len(rxns))])
                 fixed.clear(); fixed.update(fixed_saved)
-                ctx.close('D1', np.asarray(res2[0]), want2, 1e-12, dict(mech, what='values', call='repeat'))
+                ctx.close('D1', np.asarray(res2[0]), want2, 1e-12, dict(mech, what='values', call='repeat'), scale=_rel(want2))
     else:
         (n1, v1), (n2, v2) = axes
         res = ctx.call('D1', dict(mech, step='get_GoRT_2D'), pdg.get_GoRT_2D, x1_name=n1, x1_values=list(v1),
@@ -229,7 +251,7 @@ def _diagram(spec, ctx):
         if not ctx.check('D1', G.shape == (len(rxns), len(v1), len(v2)), dict(mech, what='shape'), shape=list(G.shape)):
             return
         want = np.array([[[own(i, {n1: a, n2: b}) for b in v2] for a in v1] for i in range(len(rxns))])
-        ctx.close('D1', G, want, 1e-12, dict(mech, what='values'))
+        ctx.close('D1', G, want, 1e-12, dict(mech, what='values'), scale=_rel(want))
         _stable(ctx, mech, np.asarray(stable), want, (len(v1), len(v2)))
         # a 1-D scan along axis 2 at a fixed value of axis 1 equals the row of the 2-D scan
         j = (ctx.case_index or 0) % len(v1)
@@ -239,14 +261,22 @@ def _diagram(spec, ctx):
                         G_units=units, **kw)
         if res1 is not core.NOVALUE:
             G1, st1 = res1
-            ctx.close('D2', np.asarray(G1), G[:, j, :], 1e-12, dict(mech, what='1D_equals_2D_row_values'))
+            ctx.close('D2', np.asarray(G1), G[:, j, :], 1e-12, dict(mech, what='1D_equals_2D_row_values'), scale=_rel(G[:, j, :]))
             st1 = np.asarray(st1)
             if ctx.check('D2', st1.shape == (len(v2),), dict(mech, what='1D_row_shape'), shape=list(st1.shape)):
                 col = want[:, j, :]
                 for k in range(len(v2)):
                     s = int(st1[k])
-                    ctx.check('D2', 0 <= s < len(rxns) and col[s, k] <= col[:, k].min() + 1e-12 * max(1, abs(col[:, k].min())),
+                    ctx.check('D2', 0 <= s < len(rxns) and col[s, k] <= col[:, k].min() + 1e-12 * float(np.abs(col[:, k]).max()),
                               dict(mech, what='1D_row_minimiser'), picked=s, column=col[:, k].tolist())
+
+
+def _rel(table):
+    """element-wise relative scale (the library divides the reaction's own value by the norm factor: the table
+    is exact to rounding whatever its magnitude)"""
+    import numpy as np
+    t = np.abs(np.asarray(table, float))
+    return np.maximum(t, 1e-12 * max(float(t.max()), 1e-300))
 
 
 def _stable(ctx, mech, stable, table, grid_shape):
@@ -265,7 +295,7 @@ def _stable(ctx, mech, stable, table, grid_shape):
         ok = float(s).is_integer() and 0 <= int(s) < flat_tab.shape[0]
         if ok:
             col = flat_tab[:, k]
-            ok = col[int(s)] <= col.min() + 1e-12 * max(1.0, abs(col.min()))
+            ok = col[int(s)] <= col.min() + 1e-12 * float(np.abs(col).max())
         ctx.check('D2', ok, dict(mech, what='minimiser'), picked=float(s), column=flat_tab[:, k].tolist())
 
 
@@ -276,7 +306,7 @@ def _span(spec, ctx):
     states, ts = spec['states'], spec['ts']
     shape = spec.get('shape', 'chain')
     consumed = spec.get('consumed')
-    ctx.cls('span:' + shape)
+    ctx.cls('span:' + shape.split(':')[0], 'span:' + shape)
     rx_specs = []
     for i in range(len(ts)):
         react = states[i] if not (consumed and i >= 1) else consumed[i - 1]
@@ -294,12 +324,17 @@ def _span(spec, ctx):
         if net is core.NOVALUE:
             net = None
     path = [states[0]]
+    bep_steps = {}                              # index in path -> (reactants, products) of the step a BEP TS belongs to
     for i in range(len(ts)):
         if consumed and i >= 1:
             path.append(consumed[i - 1])       # a different state from what step i-1 produced
         if ts[i]:
+            if ts[i][0][0] == '@bep':
+                bep_steps[len(path)] = (rx_specs[i]['reactants'], rx_specs[i]['products'])
             path.append(ts[i])
         path.append(states[i + 1])
+    if bep_steps:
+        net = None                              # only Reactions.get_E_span is driven with a shared BEP
     if shape.startswith('unchained'):
         ctx.cls('span:unchained')
         net = None                              # not a connected pathway
@@ -313,7 +348,22 @@ def _span(spec, ctx):
         def G(side):
             tot, _ = RG.state_sum(objs, side, 'get_GoRT', cond)
             return tot * RT
-        Gs = [G(s) for s in path]
+        def G_bep(react, prod):
+            # reference BEP transition state: H = H_reactants + Ea, Ea = adjusted slope * descriptor + intercept
+            # (kcal/mol), S = S_reactants (default entropy_state)
+            hr, _ = RG.state_sum(objs, react, 'get_HoRT', cond)
+            hp, _ = RG.state_sum(objs, prod, 'get_HoRT', cond)
+            sr, _ = RG.state_sum(objs, react, 'get_SoR', cond)
+            Rk = c.R('kcal/mol/K')
+            d = spec['bep']['descriptor']
+            dH = (hp - hr) * Rk * cond['T']
+            slope = spec['bep']['slope']
+            if d == 'delta_H':
+                ea = slope * dH + spec['bep']['intercept']
+            else:                               # rev_delta_H: descriptor = H_reactants - H_products, forward slope - 1
+                ea = (slope - 1.0) * (-dH) + spec['bep']['intercept']
+            return (hr + ea / (Rk * cond['T']) - sr) * RT
+        Gs = [G_bep(*bep_steps[k]) if k in bep_steps else G(s_) for k, s_ in enumerate(path)]
         imax, imin = int(np.argmax(Gs)), int(np.argmin(Gs))
         want = Gs[imax] - Gs[imin]
         before = imax < imin
